@@ -632,7 +632,19 @@ func (g *vGenSess) inject(addrA, addrB, net0 int) {
 	if r.chance(1, 3) {
 		spec = append(spec, "uc=1")
 	}
-	switch r.intn(4) {
+	tbs := []string{"0", "1", "4242", "4243", "9223372036854775807", "9223372036854775808", "18446744073709551615"}
+	switch r.intn(9) {
+	case 8, 7:
+		if g.focus == "C05" || r.chance(1, 3) {
+			// both role attributes in one message, in either order, with independent tie-breakers
+			spec = append(spec, "role="+[]string{"cd", "dc"}[r.intn(2)], "tb="+tbs[r.intn(len(tbs))], "tb2="+tbs[r.intn(len(tbs))])
+		}
+	case 0, 1:
+		spec = append(spec, "role=c", fmt.Sprintf("tb=%s", tbs[r.intn(len(tbs))]))
+	case 2, 3:
+		spec = append(spec, "role=d", fmt.Sprintf("tb=%s", tbs[r.intn(len(tbs))]))
+	}
+	switch 9 {
 	case 0:
 		spec = append(spec, "role=c", fmt.Sprintf("tb=%s", []string{"0", "1", "4242", "4243", "18446744073709551615"}[r.intn(5)]))
 	case 1:
